@@ -1,5 +1,6 @@
 """C02 — Model edits do exactly what they document; cross-references stay consistent."""
 from contracts import c15_dictlist, misc_small, c02_xref  # noqa
+from contracts import c02_update_genes as U
 from props._generic import run_property, replay_with_driver
 
 LEVEL = "other"
@@ -9,6 +10,8 @@ KEYS = ["DictList." + k for k in ("append extend _extend_nocheck remove __isub__
                                   "has_id index __contains__ union __iadd__ add").split()] + [
     "Reaction.copy", "Reaction._associate_gene", "Reaction._dissociate_gene", "Group.add_members", "Group.remove_members",
     "Model.get_associated_groups"]
+# Reaction.update_genes_from_gpr needs its own hook table (the materialised reaction's heap-resident gene set, the ghost undo trace)
+KEYS_UG = ["Reaction.update_genes_from_gpr"]
 
 
 def run(rep):
@@ -20,12 +23,42 @@ def run(rep):
         "model are added) is proved to leave all model pointers of its operand as found; the primitive cross-reference updates "
         "Reaction._associate_gene/_dissociate_gene are proved to update both directions (reaction lists gene iff gene lists reaction "
         "for the pair, nothing else touched), Group.add_members/remove_members to add/remove exactly the listed members of exactly "
-        "that group, Model.get_associated_groups to return exactly the groups containing the element, in order. The documented effect of each public "
+        "that group, Model.get_associated_groups to return exactly the groups containing the element, in order. "
+        "Reaction.update_genes_from_gpr - the function through which every change of a gene rule updates reaction.genes and "
+        "gene.reactions - is proved for a reaction that is IN a model, without and with an open context, whatever the rule (three "
+        "loop invariants: over the rule's names in any enumeration order, over the new gene set, over old minus new; the callees "
+        "_associate_gene / _dissociate_gene, DictList.has_id / append / get_by_id and get_context by their proved contracts). With N "
+        "the set of gene names of the rule (empty when the rule has no body): afterwards reaction._genes is exactly the set of the "
+        "model's genes whose identifier is in N (both inclusions, and member by member); model.genes keeps its old members in place "
+        "and stays a well-formed DictList, and gains exactly one NEW Gene object per name of N that had no gene - with that "
+        "identifier, pointing at the model, listed by no reaction before, listing exactly this reaction afterwards; for every gene "
+        "of the old or the new set, `reaction in gene._reaction` holds afterwards exactly when the gene is in the new set, and every "
+        "gene of the new set points at the model; a gene in neither set keeps its identifier, model pointer and reaction set, no "
+        "entry of any gene's reaction set for ANOTHER reaction changes, no other reaction's gene set changes; hence if `g in "
+        "genes(reaction) <=> reaction in reactions(g)` held for this reaction at entry it holds at exit, and (lemma xref-preserved, a "
+        "closed formula over exactly these post-conditions) the same for the invariant over the whole heap. Without a context "
+        "nothing is registered; with a context the undo functions registered - all in the innermost context of the model - are "
+        "exactly: for each created gene partial(model.genes.__isub__, [gene]) immediately followed by partial(setattr, gene, "
+        "'_model', None), both before its dissociation entry; one partial(self._dissociate_gene, g) per gene of the new set that was "
+        "NOT in the old set (the repair: a gene that was part of the reaction before stays part of it when the change is "
+        "reverted); one partial(self._associate_gene, g) per gene of the old set that is not in the new set; nothing else and "
+        "nothing twice (ghost trace with a witness map). ASSUMED there: the GPR.genes getter returns the ghost name set of the rule "
+        "tree; Gene(id) allocates a new object (referenced by nothing that exists, given identifier, no model, empty reaction set); "
+        "glue precondition: the heap's model pointer of the materialised reaction is the materialised model; the explicit form of "
+        "the DictList index after append is assumed at the call site and justified by the lemma append-index over the C15 "
+        "post-condition. The model-less branch of update_genes_from_gpr (a set comprehension allocating one Gene per name) is NOT "
+        "covered. The documented effect of each other public "
         "editing operation on stoichiometry, gene sets, back-references and groups (add_reactions re-pointing, add_metabolites "
-        "combine/replace, update_genes_from_gpr, remove_* with orphans, remove_genes/rename_genes, add_boundary, merge) is NOT "
+        "combine/replace, remove_* with orphans, remove_genes/rename_genes, add_boundary, merge), the parsing of the rule text and "
+        "what the registered undo functions do when they run are NOT "
         "proved - those functions mix sympy/optlang calls, string parsing and nested loops outside the supported subset: bounded "
         "driver (histories compared step by step with an executable reference description + Inv_XRef after every step)."),
-        trusted=["CPython list/dict semantics as axiomatised", "copy.deepcopy returns a fresh detached object (assumed)"])
+        more=[(KEYS_UG, U.HOOKS)], lemmas=U.lemmas,
+        trusted=["CPython list/dict semantics as axiomatised", "copy.deepcopy returns a fresh detached object (assumed)",
+                 "GPR.genes returns the gene names of the rule tree (ghost rule_names; assumed contract)",
+                 "Gene(id) allocates a new object referenced by nothing that exists (assumed allocation contract)",
+                 "get_context by its contract proved under C03; set semantics (copy, add, difference, iteration in any order) as "
+                 "axiomatised"])
 
 
 def replay(payload):
